@@ -214,7 +214,10 @@ impl ClockTimestamp {
         let time_offset = if time_offset_length == 0 {
             None
         } else {
-            Some(r.read(u32::from(time_offset_length), "time_offset_length")?)
+            // time_offset is i(v): sign-extend from time_offset_length bits.
+            let raw: u32 = r.read(u32::from(time_offset_length), "time_offset_length")?;
+            let shift = 32 - u32::from(time_offset_length);
+            Some(((raw << shift) as i32) >> shift)
         };
         Ok(ClockTimestamp {
             ct_type,
